@@ -51,7 +51,9 @@ async fn merge_insert(ds: &Dataset, region: &str, g: u64, owner: &str, lo: i32) 
     b.mark_mem_wal_as_merged(MemWalId::new(region, g), owner).await?;
     let job = b.try_build()?;
     let rdr = RecordBatchIterator::new(vec![Ok(batch(lo, 2))], schema());
-    job.execute_reader(Box::new(rdr) as Box<dyn arrow_array::RecordBatchReader + Send>).await?;
+    let (nd, stats) = job.execute_reader(Box::new(rdr) as Box<dyn arrow_array::RecordBatchReader + Send>).await?;
+    let t = nd.read_transaction().await?.unwrap();
+    println!("   merge_insert: attempts={} handle v{} txn.read_version={} new v{}", stats.num_attempts, ds.version().version, t.read_version, nd.version().version);
     Ok(())
 }
 
@@ -114,6 +116,15 @@ pub fn run(_args: &Args) -> i32 {
         println!("K5 after 1 {}", dump(&ds).await);
         println!("K5 stale merge_insert R/0: {}", short(merge_insert(&stale2, "R", 0, "A", 200).await));
         println!("K5 after 2 {}", dump(&ds).await);
+        // ---- P1: merge_insert from a stale handle
+        let td = tempfile::tempdir().unwrap();
+        let mut ds = fresh(td.path()).await;
+        advance_mem_wal_generation(&mut ds, "R", "mt0", "wal0", None, "A").await.unwrap();
+        advance_mem_wal_generation(&mut ds, "R", "mt1", "wal1", Some("A"), "A").await.unwrap();
+        mark_mem_wal_as_flushed(&mut ds, "R", 0, "A").await.unwrap();
+        let stale = ds.clone();
+        advance_mem_wal_generation(&mut ds, "R", "mt2", "wal2", Some("A"), "A").await.unwrap();
+        println!("P1 stale merge_insert: {}", short(merge_insert(&stale, "R", 0, "A", 300).await));
         // ---- K2 sequential: region emptied by trim, generation 0 recreated
         let td = tempfile::tempdir().unwrap();
         let mut ds = fresh(td.path()).await;
